@@ -53,7 +53,10 @@ pub enum Action {
     /// `must_sync()` is false. `force`: call `ready()` even when `has_ready()` is false.
     AppReady { n: NodeId, mode: Mode, skip_fsync: bool, force: bool },
     /// Disk completes: the first `count` queued writes become durable (u32::MAX = all).
-    Fsync { n: NodeId, count: u32 },
+    /// `defer`: the persisted messages are released now, the `on_persist_ready` notification is
+    /// handed to raft later by a `Notify` action (write thread sends, peer thread is told later).
+    Fsync { n: NodeId, count: u32, #[serde(default)] defer: bool },
+    Notify { n: NodeId },
     /// Application applies up to `count` stashed committed entries, then `advance_apply_to`.
     Apply { n: NodeId, count: u32 },
     Propose { n: NodeId, id: u64, size: u32 },
